@@ -214,11 +214,13 @@ def shrink(mod, case, clause, budget=400, log=None):
     """
     used = [0]
     frozen = set(getattr(mod, 'SHRINK_KEEP', ()))
+    t_end = time.time() + float(os.environ.get('VERIF_SHRINK_WALL', '25'))
 
     valid = getattr(mod, 'valid', None)
 
     def fails(c):
-        if used[0] >= budget:
+        if used[0] >= budget or time.time() > t_end:
+            used[0] = budget
             return False
         if valid is not None:
             try:
